@@ -43,6 +43,7 @@ def gen_plan(rng, tier, index):
             'use_exact_signal': rng.chance(0.7), 'use_same_signal': rng.chance(0.4),
             'signal_cov': rng.chance(0.12), 'noise_cov_trial': rng.chance(0.2),
             'label_offset': rng.pick([0, 0, 0, 250000, 1700000000]), 'int_rdm': rng.chance(0.2),
+            'arg_types': rng.pick(['py', 'py', 'np']),
             'faults': {'rate': 0, 'kinds': []}}
     return plan
 
@@ -202,9 +203,12 @@ def _simulate(ctx, plan, noise, noise_cov, script=None, strict=False, model=None
             kw['signal_cov_channel'] = _spd(plan, salt=7)        # part of the signal: the same in every replay
         if trial_cov is not None:
             kw['noise_cov_trial'] = trial_cov
-        ds = make_dataset(m, theta, cv, n_channel=plan['n_channel'], n_sim=plan['n_sim'], signal=plan['signal'],
-                          noise=noise, noise_cov_channel=noise_cov, use_exact_signal=plan['use_exact_signal'],
-                          use_same_signal=plan['use_same_signal'], **kw)
+        # settings read from an array or a parameter grid arrive as numpy scalars
+        as_np = plan.get('arg_types') == 'np'
+        I, Fl, B = (np.int64, np.float64, np.bool_) if as_np else (int, (lambda v: v), bool)
+        ds = make_dataset(m, theta, cv, n_channel=I(plan['n_channel']), n_sim=I(plan['n_sim']), signal=Fl(plan['signal']),
+                          noise=Fl(noise), noise_cov_channel=noise_cov, use_exact_signal=B(plan['use_exact_signal']),
+                          use_same_signal=B(plan['use_same_signal']), **kw)
     return ds, seam, (m, theta, pred, cv, cidx, labels)
 
 
